@@ -4,8 +4,11 @@ package generator
 
 // C13 (determinism): every function below belongs to it - its effect clause (no random, clock or environment
 // effect beyond the declared ones), frame, call preconditions and loop invariants are proved for every iteration
-// order of every map it ranges over.
-//@ fileprops C13
+// order of every map it ranges over.  C14 (never a crash) owns the safety obligations and call preconditions of
+// every function, C15 (writes only its output) the file-system-write effect clause of every function, C18 (stdout
+// carries only the generated code) the stdout effect clause of every function; a call to a function without
+// contract has unknown effects and fails those clauses.
+//@ fileprops C13, C14:safety+call, C15:effects:fs-write+effects:unknown, C18:effects:stdout+effects:unknown
 
 // Contracts for the deductive verifier in /verif (govc).  This file contains comments only;
 // it is compiled only with -tags verif and declares nothing.
